@@ -2,6 +2,7 @@
 import sys, json, math
 import numpy as np
 import casadi as ca
+from harness import cas as _cas
 from harness.core import Run, run_tlc, parse_dump, main_wrap, MachineryError
 from harness.lie import rm_to_np, FnCache, so3_param, rot
 from harness import explog as E
@@ -41,7 +42,9 @@ def hat(u):
 
 def call(f, *a):
     r = f(*a)
-    return [np.array(x) for x in (r if isinstance(r, (list, tuple)) else [r])]
+    out = [np.array(x) for x in (r if isinstance(r, (list, tuple)) else [r])]
+    _cas.direct_probe(f, a, out)
+    return out
 
 
 def replay(run, cache, tv):
@@ -120,6 +123,18 @@ def replay(run, cache, tv):
         cmp.vec(f"{kind}/right_jacobian/zero_rotation", "J_r != I - ad/2 at zero rotation", Jr, I(d) - ad / 2, tv)
         cmp.vec(f"{kind}/left_jacobian_inv/zero_rotation", "J_l^-1 != I - ad/2 at zero rotation", Jli, I(d) - ad / 2, tv)
         cmp.vec(f"{kind}/right_jacobian_inv/zero_rotation", "J_r^-1 != I + ad/2 at zero rotation", Jri, I(d) + ad / 2, tv)
+        # the same element built EAGERLY from numbers (what a user does with x = alg.elem(ca.DM(...))): structural-zero
+        # shortcuts (`param.is_zero()`, sparsity tests) fire only on this path, never on a symbolic argument
+        L = E.groups()
+        alg = {"so3": L.so3, "se3": L.se3, "se23": L.se23}[kind]
+        x = alg.elem(ca.DM(np.array(tv["xi"], float)))
+        for nm, want in (("left_jacobian", I(d) + ad / 2), ("right_jacobian", I(d) - ad / 2),
+                         ("left_jacobian_inv", I(d) - ad / 2), ("right_jacobian_inv", I(d) + ad / 2)):
+            try:
+                got = np.array(ca.DM(ca.densify(getattr(x, nm)())))
+            except Exception as ex:     # noqa
+                run.violation(f"{kind}/{nm}/raises_numeric", f"{type(ex).__name__}: {ex}", {"tv": tv}); continue
+            cmp.vec(f"{kind}/{nm}/zero_rotation_numeric", f"{nm} of a numerically built element differs at zero rotation", got, want, tv)
     elif op == "gjac":
         Q = tv["q"]; w = np.array(tv["w"], float)
         N = float(sum(c * c for c in Q)); s = math.sqrt(N)
